@@ -1,5 +1,6 @@
 import Umya.Driver.Proto
 import Umya.Model.Annot
+import Umya.Driver.C06View
 namespace Umya.Driver.C06
 open Umya.Annot Umya.Coord Umya.Proto Umya.XmlEsc
 
@@ -54,6 +55,9 @@ def dedup (l : List Text) : List Text := l.foldl (fun acc a => if acc.contains a
 def handle (st : St) (args : List String) : St × String :=
   match args with
   | "reset" :: _ => ({ st with cases := st.cases + 1 }, "ok")
+  | "view" :: rest => (st, Umya.Driver.C06View.handle "view" rest)
+  | "page" :: rest => (st, Umya.Driver.C06View.handle "page" rest)
+  | "prot" :: rest => (st, Umya.Driver.C06View.handle "prot" rest)
   | ["sheetlist", items] =>
     match decodeAll (splitList items) with
     | some names =>
